@@ -58,7 +58,8 @@ package wire
 //@   assert send: !has(c.replyCh, reqid(v)) && unheld(c.mu)   // one delivery per registration (the 1-slot reply channel cannot block the dispatcher), never under the lock
 
 //@ func (*ClientConn).readReliableLoop
-//@   props C06
+//@   props C06 C16
+//@   assert select: idx != 0 - 1   // the dispatcher never drops a message because a consumer is behind (no default arm)
 
 // ---------------------------------------------------------------- alias generator (C04)
 // Precondition "no wrap": fewer than 2^32-1 aliases are minted per stream (A5).
